@@ -26,3 +26,20 @@ Section C05.
 End C05.
 Print Assumptions C05_history_independent_partial.
 Print Assumptions C05_state_restored.
+
+(* From the path text (AccFilt.v): for every path of steps and filters, what the parsed function returns on a document is the
+   same from any two admissible call histories (states st, st'): the same results in the same order, or an error in both. *)
+From JP Require Import Json Text Tree Grammar Actions Eval WF EvalInv1 KeyDefs FiltChain FiltChainAddr AccFilt.
+From Coq Require Import List. Import ListNotations.
+Theorem C05_history_independent_from_text : forall cfg parse_float regex_ok ffun afun regex_match,
+  (forall f v w, small v -> ffun f v = Some w -> small w) ->
+  (forall f l w, Forall small l -> afun f l = Some w -> small w) ->
+  forall x r doc st st', forallb fstep_ok (x :: r) = true -> forallb (fstep_okp parse_float regex_ok) (x :: r) = true -> small doc -> ok st -> ok st' ->
+  exists t, parse_with cfg parse_float regex_ok jsonpath_grammar (fchain_path (x :: r)) = ParseOk t /\
+            match fst (eval_run ffun afun regex_match t doc st) with
+            | OOk rs => fst (eval_run ffun afun regex_match t doc st') = OOk rs
+            | OErr _ => exists e, fst (eval_run ffun afun regex_match t doc st') = OErr e
+            | OPanic _ => False
+            end.
+Proof. exact history_independent_from_text. Qed.
+Print Assumptions C05_history_independent_from_text.
